@@ -1488,3 +1488,46 @@ package main
 //@   holds p
 //@   loop 0:
 //@     invariant forall j int :: 0 <= j && j < len(ok_transports) ==> nonNil(ok_transports[j])
+
+// ---- decode / re-encode laws of the parameter lists and leaf values (C14) ----
+
+//@ func (KeyValue).Write
+//@   props C14
+//@   uses kvtext
+//@   modifies W
+//@   ensures verbatim: isType(writer, "*bytes.Buffer") ==> W[refOf(writer)] == old(W[refOf(writer)]) + kvText(kv)
+//@   ensures only-this-writer: forall w int :: w != refOf(writer) ==> W[w] == old(W[w])
+
+//@ func ParseGenericParam
+//@   props C14
+//@   uses kvtext
+//@   modifies nothing
+//@   ensures denotes: len(s) > 0 ==> err == nil && result == kvOfText(s)
+//@   ensures empty: len(s) == 0 ==> err != nil
+
+//@ func ParseAbsoluteURI
+//@   props C14
+//@   ensures keeps-text: err == nil && result.absURI == s
+
+//@ func (*AbsoluteURI).Writer
+//@   props C14
+//@   modifies W
+//@   ensures verbatim: isType(writer, "*bytes.Buffer") ==> W[refOf(writer)] == old(W[refOf(writer)]) + au.absURI
+//@   ensures only-this-writer: forall w int :: w != refOf(writer) ==> W[w] == old(W[w])
+
+//@ func parseUriParameters
+//@   props C14
+//@   uses kvtext split
+//@   modifies sipUri.Parameters
+//@   ensures all-decoded: err == nil && len(sipUri.Parameters) == len(old(sipUri.Parameters)) + len(split(s, ";"))
+//@   ensures kept: forall j int :: 0 <= j && j < len(old(sipUri.Parameters)) ==> sipUri.Parameters[j] == old(sipUri.Parameters)[j]
+//@   ensures each-denotes: forall j int :: 0 <= j && j < len(split(s, ";")) ==> sipUri.Parameters[len(old(sipUri.Parameters)) + j] == kvOfText(split(s, ";")[j])
+//@   loop 0:
+//@     invariant 0 <= $i && $i <= len(split(s, ";")) && len(sipUri.Parameters) == len(old(sipUri.Parameters)) + $i
+//@     invariant forall j int :: 0 <= j && j < len(old(sipUri.Parameters)) ==> sipUri.Parameters[j] == old(sipUri.Parameters)[j]
+//@     invariant forall j int :: 0 <= j && j < $i ==> sipUri.Parameters[len(old(sipUri.Parameters)) + j] == kvOfText(split(s, ";")[j])
+
+//@ func (*NameAddr).Write
+//@   props C14
+//@   modifies W
+//@   ensures display-name-verbatim: isType(writer, "*bytes.Buffer") ==> hasPrefix(W[refOf(writer)], old(W[refOf(writer)]) + na.DisplayName + "<") && hasSuffix(W[refOf(writer)], ">")
